@@ -217,11 +217,13 @@ def recipes(tier='quick'):
         add('InnerProductOperator', {'space': sn}, lambda sp=sp, vv=vv: odl.InnerProductOperator(_v(sp, vv)))
         add('x.T', {'space': sn}, lambda sp=sp, vv=vv: _v(sp, vv).T)
         if cplx:
+            add('ComplexEmbedding', {'space': sn, 'scalar': 'complex-general'}, lambda sp=sp: odl.ComplexEmbedding(sp, scalar=2 + 1j))
             add('RealPart', {'space': sn}, lambda sp=sp: odl.RealPart(sp))
             add('ImagPart', {'space': sn}, lambda sp=sp: odl.ImagPart(sp))
         else:
             add('ComplexEmbedding', {'space': sn}, lambda sp=sp: odl.ComplexEmbedding(sp))
-            add('ComplexEmbedding', {'space': sn, 'scalar': 'complex'}, lambda sp=sp: odl.ComplexEmbedding(sp, scalar=1j))
+            add('ComplexEmbedding', {'space': sn, 'scalar': 'imaginary'}, lambda sp=sp: odl.ComplexEmbedding(sp, scalar=1j))
+            add('ComplexEmbedding', {'space': sn, 'scalar': 'complex-general'}, lambda sp=sp: odl.ComplexEmbedding(sp, scalar=1 - 2j))
             add('RealPart', {'space': sn}, lambda sp=sp: odl.RealPart(sp))
             add('ImagPart', {'space': sn}, lambda sp=sp: odl.ImagPart(sp))
         # sampling / flattening
